@@ -31,7 +31,7 @@ var c15Cmds = []string{"generate", "generate-stdin", "compare", "compare", "form
 
 var c15DecoyPool = []string{
 	"regex-assembly/932100.ra.bak", "regex-assembly/932100.ra~", "regex-assembly/notes.md", "regex-assembly/x.ra/", "regex-assembly/x.ra/inside.txt", "regex-assembly/include/readme.txt", "regex-assembly/.hidden.ra.swp", "regex-assembly/data.raw",
-	"rules/REQUEST-932-APPLICATION-ATTACK-RCE.conf.orig", "rules/REQUEST-932-APPLICATION-ATTACK-RCE.conf~", "rules/unix-shell.data", "rules/README.example.md", "rules/backup.conf.d/",
+	"rules/REQUEST-932-APPLICATION-ATTACK-RCE.bak", "rules/#REQUEST-932-APPLICATION-ATTACK-RCE.conf#", "rules/REQUEST-932-APPLICATION-ATTACK-RCE.conf.orig", "rules/REQUEST-932-APPLICATION-ATTACK-RCE.conf~", "rules/unix-shell.data", "rules/README.example.md", "rules/backup.conf.d/",
 	"tests/regression/tests/REQUEST-932/9321000.yaml", "tests/regression/tests/REQUEST-932/932100.yaml.bak", "tests/regression/tests/REQUEST-932/932100.yaml~", "tests/regression/tests/REQUEST-932/notes.txt", "tests/regression/tests/REQUEST-932/93210.yaml", "tests/regression/tests/REQUEST-932/932100.json", "tests/regression/README.md",
 	"tests/regression/tests/REQUEST-932/932101",
 	"crs-setup.conf.example.bak", "docs/example.md", "util/tool.confx", "INSTALL", ".github/workflows/x.yaml",
@@ -40,7 +40,7 @@ var c15DecoyPool = []string{
 func genC15(t *rapid.T) C15Case {
 	c := C15Case{Cmd: rapid.SampledFrom(c15Cmds).Draw(t, "cmd")}
 	c.RootSel = rapid.SampledFrom([]string{"outer", "outer", "inner"}).Draw(t, "rootsel")
-	c.DirArg = rapid.SampledFrom([]string{"root", "root", "rules", "regex-assembly", "include", "tests"}).Draw(t, "dirarg")
+	c.DirArg = rapid.SampledFrom([]string{"root", "root", "rules", "regex-assembly", "include", "tests", "outside", "outside-sub"}).Draw(t, "dirarg")
 	c.Dirty = rapid.IntRange(0, 3).Draw(t, "dirty") != 0
 	c.Github = rapid.IntRange(0, 3).Draw(t, "github") == 0
 	switch c.Cmd {
@@ -104,6 +104,9 @@ func c15RootFiles(tag string, dirty bool) cli.Tree {
 
 func decoyContent(p string) string {
 	switch {
+	case strings.Contains(p, "rules/") && strings.Contains(p, "-932-"):
+		// a stale copy of the rules file: it contains the rules, so it could be mistaken for the real file
+		return c15RootFiles("_copy", true)["rules/REQUEST-932-APPLICATION-ATTACK-RCE.conf"]
 	case strings.Contains(p, "tests/"):
 		return "---\ntests:\n  - test_id: 77\n  - test_id: 78\n"
 	case strings.Contains(p, "regex-assembly/"):
@@ -127,7 +130,7 @@ func checkC15(c C15Case) Outcome {
 	sb := cli.NewSandbox("c15")
 	defer sb.Close()
 	// S/: outside/, home/, crs/ (outer root) with crs/vendor/inner (inner root)
-	tree := cli.Tree{"outside/notes.conf": decoyContent("x"), "outside/932100.ra": decoyContent("regex-assembly/"), "outside/932100.yaml": decoyContent("tests/"), "home/": "", "outside/regex-assembly-not/x.ra": "x\n"}
+	tree := cli.Tree{"outside/tests/regression/tests/R/932100.yaml": decoyContent("tests/"), "outside/rules/REQUEST-932-X.conf": decoyContent("x"), "outside/crs-setup.conf.example": decoyContent("x"), "outside/notes.conf": decoyContent("x"), "outside/932100.ra": decoyContent("regex-assembly/"), "outside/932100.yaml": decoyContent("tests/"), "home/": "", "outside/regex-assembly-not/x.ra": "x\n"}
 	for p, v := range c15RootFiles("_outer", c.Dirty) {
 		tree["crs/"+p] = v
 	}
@@ -159,6 +162,11 @@ func checkC15(c C15Case) Outcome {
 		dir = sel + "/regex-assembly/include"
 	case "tests":
 		dir = sel + "/tests/regression/tests/REQUEST-932"
+	case "outside":
+		// not a CRS root and not below one: every command must refuse and write nothing
+		dir = "outside"
+	case "outside-sub":
+		dir = "outside/tests/regression/tests"
 	}
 	args := []string{"-d", sb.Path(dir)}
 	if c.Github {
@@ -202,6 +210,9 @@ func checkC15(c C15Case) Outcome {
 	out.Detail["argv"], out.Detail["exit"], out.Detail["changed"] = strings.Join(args[2:], " "), r.Exit, changed
 	out.Detail["stderr"] = tailLines(r.Stderr, 4)
 	allowed := func(p string) bool {
+		if strings.HasPrefix(c.DirArg, "outside") {
+			return false
+		}
 		if !strings.HasPrefix(p, sel+"/") {
 			return false
 		}
